@@ -794,6 +794,19 @@ class CallMixin:
             if self.concrete_seq(lst) is not None:
                 lst.items.reverse()
                 return Cst(None)
+            if all(isinstance(i, Rep) or not isinstance(i, Splice) for i in lst.items) and not lst.shared:
+                # a list with symbolic runs: the runs change places and each is walked backwards
+                new_items = []
+                for i in reversed(lst.items):
+                    if isinstance(i, Rep):
+                        over = i.over[len("reversed("):-1] if str(i.over).startswith("reversed(") else f"reversed({i.over})"
+                        r = Rep(list(i.items), over, getattr(i, "elem", None))
+                        r.filtered = getattr(i, "filtered", False)
+                        new_items.append(r)
+                    else:
+                        new_items.append(i)
+                lst.items[:] = new_items
+                return Cst(None)
         raise AnalysisError(f"list.{name} at {self.cur_site}")
 
     def scoll_method(self, sc: SColl, name, args, node, fr):
